@@ -247,7 +247,7 @@ func drawC02(t *rapid.T) C02Case {
 		Accruals:   rapid.IntRange(0, 2).Draw(t, "accruals") == 0,
 		Assertions: rapid.Bool().Draw(t, "assertions"), Closes: true,
 		Prices:    rapid.SampledFrom([]int{0, 0, 1}).Draw(t, "prices"),
-		MaxDec:    rapid.SampledFrom([]int{2, 4, 8}).Draw(t, "maxDec"),
+		MaxDec:    rapid.SampledFrom([]int{2, 4, 8, 12}).Draw(t, "maxDec"),
 		Unicode:   rapid.IntRange(0, 5).Draw(t, "unicode") == 0,
 		WideDates: true,
 	}
@@ -259,6 +259,9 @@ func drawC02(t *rapid.T) C02Case {
 	c.Flags = gen.DrawBalFlags(t, j, gen.FlagOpts{Mappings: true, Hide: true, Remap: true, Filters: true, Exact: true})
 	c.Flags.CSV = false
 	c.Flags.Digits = 9
+	if cfg.MaxDec > 8 {
+		c.Flags.Digits = 14 // exact for quantities with up to 12 decimals
+	}
 	return c
 }
 
